@@ -142,3 +142,51 @@ fn c07_trampoline_slice() {
     kani::cover!(matches!(r, Ok(tr::TailedEvalResult::Value(_))) && frames == 4, "three tail calls then a value");
     kani::cover!(limited && frames == l + 1 && matches!(r, Ok(_)), "exactly L tail calls succeed");
 }
+
+/// the searching loop of `take_while` (verbatim slice): with a search limit L the budget is consulted before each
+/// element is examined, so MaximumSearch is raised exactly when more than L elements have to be examined, after exactly
+/// L predicate calls; otherwise the loop ends at the first rejected element with one predicate call per examined element
+#[kani::proof]
+#[kani::unwind(8)]
+fn c08_take_while_loop_slice() {
+    use crate::slices::take_while_loop as tw;
+    let l: usize = kani::any();
+    let limited: bool = kani::any();
+    kani::assume(l <= 5);
+    let n: usize = kani::any();
+    kani::assume(n >= 1 && n <= 4);
+    let s: [u8; 4] = kani::any();
+    kani::assume(s[0] <= 1 && s[1] <= 1 && s[2] <= 1 && s[3] <= 1);
+    let f = tw::Pred { script: [s[0], s[1], s[2], s[3], 0, 0] };
+    let ns = tw::Ns { calls: Cell::new(0), seen: Cell::new([0; 6]) };
+    let rt = Rc::new(tw::Rt { maximum_search: if limited { Some(l) } else { None } });
+    let items = [100u8, 101, 102, 103];
+    let r = tw::take_while_loop((0..n).map(|i| Ok(Ok(items[i]))), &f, &ns, rt.clone(), Some(n));
+    let mut k = 0;
+    while k < n && s[k] == 1 {
+        k += 1;
+    }
+    let examined = if k < n { k + 1 } else { n };
+    let calls = ns.calls.get();
+    if limited && examined > l {
+        assert!(matches!(r, Err(tw::RuntimeViolation::MaximumSearch)), "more than L elements to examine: MaximumSearch");
+        assert!(calls == l, "exactly L elements are examined before the violation");
+    } else {
+        match r {
+            Ok(tw::Outcome::End(e)) => assert!(e == Some(k), "the loop ends at the first rejected element"),
+            _ => assert!(false, "no violation when at most L elements are examined"),
+        }
+        assert!(calls == examined, "one predicate call per examined element");
+        let seen = ns.seen.get();
+        let mut j = 0;
+        while j < 4 {
+            if j < calls {
+                assert!(seen[j] == 100 + j as u8, "elements are examined in order");
+            }
+            j += 1;
+        }
+    }
+    kani::cover!(limited && examined == l, "exactly L elements examined: no violation");
+    kani::cover!(limited && examined == l + 1, "L+1 elements needed: violation");
+    kani::cover!(!limited && k == 4, "whole sequence accepted");
+}
